@@ -84,6 +84,9 @@ func (o *Outcome) Absorb(prop string, phase string, r *simrt.Result) bool {
 	o.Switches += r.Switches
 	o.SimMs += r.Elapsed.Milliseconds()
 	o.TraceHash = strconv.FormatUint(mix(parseU(o.TraceHash), r.TraceHash), 16)
+	if r.ChildFirst > 0 {
+		o.Fault("child_goroutine_ran_first", int64(r.ChildFirst))
+	}
 	if r.TimerFirst > 0 {
 		o.Fault("timer_before_runnable", int64(r.TimerFirst))
 	}
